@@ -681,15 +681,20 @@ def fam_path_intersect(R, n1, n2, hits):
             claims += [ok_member, req(lift(T1) * LA, cumA + s1.l * lift(t1)), req(lift(T2) * LB, cumB + s2.l * lift(t2)),
                        z3.Or(*[z3.And(z3.BoolVal(i == s1.k and j == s2.k), lift(t1).e == a.e, lift(t2).e == b.e) for (i, j, a, b) in allp])]
         R.ob('triples-coherent', ctx, z3.And(*claims) if claims else z3.BoolVal(True), cex=cex, timeout_ms=60000)
-        # completeness of the de-duplication: an input crossing is missing only if a KEPT one is within tol
+        # completeness of the de-duplication, as the property states it: a crossing that is separated (by tol) from every OTHER
+        # crossing is reported.  (A crossing within tol of another one may go, even when that other one was itself dropped as the
+        # duplicate of a third: such chains are not 'well separated' -- an earlier version of this obligation demanded a KEPT
+        # neighbour and raised a false alarm on three crossings within 2 tol.)
         miss = []
         kept = [(s1.k, s2.k, lift(t1), lift(t2)) for (T1, s1, t1), (T2, s2, t2) in out]
-        for (i, j, a, b) in allp:
+        for n_, (i, j, a, b) in enumerate(allp):
             present = z3.Or(*[z3.And(z3.BoolVal(i == ki and j == kj), a.e == ta.e, b.e == tb.e) for (ki, kj, ta, tb) in kept]) if kept else z3.BoolVal(False)
             pa_ = A[i].point(a)
             near = []
-            for (ki, kj, ta, tb) in kept:
-                q = A[ki].point(ta)
+            for m_, (i2, j2, a2, b2) in enumerate(allp):
+                if m_ == n_:
+                    continue
+                q = A[i2].point(a2)
                 dd = (pa_.real - q.real) * (pa_.real - q.real) + (pa_.imag - q.imag) * (pa_.imag - q.imag)
                 near.append(dd.e < (tol * tol).e)
             miss.append(z3.Or(present, *near))
